@@ -137,6 +137,10 @@ func (p *poller) addDialer(c *Conn) error {
 	err := p.addReadWrite(fd)
 	if err != nil {
 		p.g.connsUnix[fd] = nil
+		// the caller (DialAsyncTimeout) returns the error and gives back the
+		// connection's wgConn slot itself: no callback, no close notification.
+		c.onConnected = nil
+		c.p = nil
 		_ = c.closeWithError(err)
 	}
 	return err
